@@ -3,7 +3,8 @@
 worktree of /repo (never /repo itself) and stores the confirmed ones as /verif/seeded/<ID>-m<k>/.
 For each seed: demo passes on the unchanged tree, patch applies and compiles, demo fails with the patch, and
 the existing tests of the touched packages show no NEW failure compared with the unchanged tree.
-usage: confirm_seeds.py C01 C03 ...   (property ids; default: all found)"""
+usage: confirm_seeds.py [--src /tmp/seed2 --offset 2] C01 C03 ...   (property ids; default: all found).
+--src names the delivery root of a later round, --offset k stores its m1/m2 as m<1+k>/m<2+k>."""
 import json, os, subprocess, sys, shutil, glob, re
 V = os.path.dirname(os.path.dirname(os.path.abspath(__file__)))
 SCR = "/tmp/vconfirm"
@@ -35,7 +36,14 @@ def failing_tests(pkg):
         if not ev.get("Test") and ev.get("Action") == "fail":
             fails.add("<package>")
     return fails, passes
-ids = sys.argv[1:] or sorted({os.path.basename(p)[:3] for p in glob.glob("/tmp/seed/C*.out")})
+args = sys.argv[1:]
+SRC, OFFSET = "/tmp/seed", 0
+if "--src" in args:
+    i = args.index("--src"); SRC = args[i + 1]; del args[i:i + 2]
+if "--offset" in args:
+    i = args.index("--offset"); OFFSET = int(args[i + 1]); del args[i:i + 2]
+args = [a for a in args if not a.startswith("--")]
+ids = args or sorted({os.path.basename(p)[:3] for p in glob.glob(SRC + "/C*.out")})
 sh(f"git -C /repo worktree remove --force {SCR}")
 shutil.rmtree(SCR, ignore_errors=True)
 rc, out = sh(f"git -C /repo worktree add --detach {SCR} HEAD")
@@ -44,8 +52,10 @@ head = sh("git -C /repo rev-parse --short HEAD")[1].strip()
 results = []
 try:
     for pid in ids:
-        for md in sorted([d for d in glob.glob(f"/tmp/seed/{pid}.out/m[0-9]") if os.path.isdir(d)]):
+        for md in sorted([d for d in glob.glob(f"{SRC}/{pid}.out/m[0-9]") if os.path.isdir(d)]):
             k = os.path.basename(md)
+            if OFFSET:
+                k = "m%d" % (int(k[1:]) + OFFSET)
             dest = f"{V}/seeded/{pid}-{k}"
             if os.path.exists(dest + "/meta.json") and "--force" not in sys.argv:
                 print(pid, k, "already stored"); continue
@@ -96,7 +106,7 @@ try:
                    "ran": [run_cmd + " (unchanged tree, then with patch)", "go build ./...", "go test <touched pkgs> -count=1 -json, failing-test sets compared with the unchanged tree"]}
             print(pid, k, "CONFIRMED" if ok else "NOT CONFIRMED", json.dumps({x: res[x] for x in ("demo_passes_unchanged", "compiles", "demo_fails_with_patch")}), {p: v["new_failures"] for p, v in new_fail.items()})
             if not ok:
-                open(f"/tmp/seed/{pid}.out/{k}.confirm.log", "w").write("== unchanged demo\n" + out0[-3000:] + "\n== build\n" + outB[-2000:] + "\n== patched demo\n" + out1[-3000:])
+                open(f"{SRC}/{pid}.out/{k}.confirm.log", "w").write("== unchanged demo\n" + out0[-3000:] + "\n== build\n" + outB[-2000:] + "\n== patched demo\n" + out1[-3000:])
             results.append(res)
             if ok:
                 os.makedirs(dest, exist_ok=True)
